@@ -1871,6 +1871,7 @@ func (c *DnsController) evictIdleDnsForwarders(now time.Time) {
 	nowNano := now.UnixNano()
 	idleNano := c.dnsForwarderIdleTTL.Nanoseconds()
 	var toClose []DnsForwarder
+	var toRetire []*cachedDnsForwarder
 
 	c.dnsForwarderCache.Range(func(key, value any) bool {
 		k, ok := key.(dnsForwarderKey)
@@ -1900,10 +1901,20 @@ func (c *DnsController) evictIdleDnsForwarders(now time.Time) {
 		}
 
 		if c.dnsForwarderCache.CompareAndDelete(k, entry) {
-			toClose = append(toClose, entry.forwarder)
+			toRetire = append(toRetire, entry)
 		}
 		return true
 	})
+
+	// A query may have loaded the entry (or even begun using it) between the
+	// checks above and the removal: retire() lets it finish and closes the
+	// forwarder exactly once after the last in-flight query; later beginUse
+	// calls fail and the caller creates a fresh forwarder.
+	for _, entry := range toRetire {
+		if err := entry.retire(); err != nil && c.log != nil {
+			c.log.WithError(err).Debugln("failed to close idle dns forwarder")
+		}
+	}
 
 	for _, forwarder := range toClose {
 		if forwarder == nil {
